@@ -14,7 +14,9 @@ PROPS = {
              'histories (submissions, blocks, rollbacks, removals, sweeps, clock ticks; tiny capacities, a group, expiry by '
              'height / block time / pool age) are replayed into the real pool and after every event size, per-sender counts '
              'and lists, latest list, short/full-hash lookup, byte counter and fee total are compared with the model; '
-             'concurrent runs are recorded through a hook under the pool mutex and validated by the trace specification.',
+             'concurrent runs are recorded through a hook under the pool mutex and validated by the trace specification; '
+             'reorganisations of a loaded full node (rollback notice overtaken by the replacing block on the bus) are provoked '
+             'and the same inverted order is a model action replayed deterministically.',
         note='Pool = production factory mempool.New (timeline queue). Primary rig: the pool on a real message bus with scripted '
              'blockchain/execs/rpc/p2p responders (every event order possible); second rig: full util/testnode with real '
              'block execution and a real reorganisation for rollbacks. Clock driven by a verif time-shift hook (tick 1000 s). '
@@ -269,10 +271,12 @@ def run(ctx):
 
 
 def run_c21(ctx, q, b, st):
-    ctx.rule = ('behaviours = TLC simulation of Mempool.tla (Submit/AddBlock/DelBlock/Remove/Sweep/Tick) under several '
+    ctx.rule = ('behaviours = TLC simulation of Mempool.tla (Submit/AddBlock/DelBlock/ReorgInv/Remove/Sweep/Tick) under several '
                 '(Cap, PerSender, MaxLast) configurations plus every history of 4 steps on the 5-entry universe, full projection '
                 'compared after every step; non-trivial = contains a failed push (duplicate / per-sender limit / full), a removal '
-                'of an absent hash, an expiry removal, or a DelBlock re-admission; distinct by abstract action sequence')
+                'of an absent hash, an expiry removal, or a DelBlock/Reorg re-admission; recorded concurrent traces count when a '
+                'push failed, reorganisations under load when the pool handled the two notices in inverted order; distinct by '
+                'abstract action sequence')
     mc(ctx, st, q, C21_INV, ('BlockGone',), 'NoDefects')
     n = 150 if q else 700
     confs = [(3, 2, 2), (2, 1, 1), (2, 2, 3)] if q else [(3, 2, 2), (2, 1, 1), (2, 2, 3), (3, 1, 2), (4, 2, 2), (1, 1, 1)]
